@@ -328,6 +328,7 @@ func c08(r *ev.Result, tier string) {
 	c08ServerSeam(r, base, file0, pin0)
 	c08WriteErrors(r, base, log0)
 	c08PathShapes(r, base)
+	c08RealSharedDirs(r, base)
 	nHist := c08Histories(r, base, depth, v)
 	r.Set("histories", nHist)
 
